@@ -55,6 +55,7 @@ func (x *Exec) doCall(fr *Frame, st *State, in ssa.Instruction, c *ssa.CallCommo
 			// called("Iface.Method") / callres / callarg (the receiver is not an argument)
 			key := x.ifaceMethodKey(c)
 			short := key[strings.LastIndex(key, "/")+1:]
+			x.tokenEvent(st, st, "call", key, nil)
 			orig := ret
 			sig := c.Signature()
 			rt := x.resultType(c)
@@ -95,12 +96,16 @@ func (x *Exec) callValue(fr *Frame, st *State, c *ssa.CallCommon, fval Value, ar
 		return
 	}
 	if b, ok := c.Value.(*ssa.Builtin); ok {
+		if b.Name() != "len" && b.Name() != "cap" {
+			x.escapeArgs(st, args)
+		}
 		ret(fr, st, x.builtin(fr, st, b, c, args))
 		return
 	}
 	fv, _ := fval.(*FuncV)
 	if fv == nil || fv.Fn == nil {
 		// symbolic function value: callback obligations, then havoc
+		x.escapeArgs(st, args)
 		x.callbackCall(fr, st, c, fv, args)
 		src := x.sourceName(fr, c.Value)
 		if i := strings.LastIndex(src, "."); i >= 0 {
@@ -135,10 +140,12 @@ func (x *Exec) callValue(fr *Frame, st *State, c *ssa.CallCommon, fval Value, ar
 		}
 	}
 	if h, ok := intrinsics[key]; ok {
+		x.escapeArgs(st, args)
 		ret(fr, st, h(x, fr, st, c, args))
 		return
 	}
 	if key == "sync.(*Once).Do" && len(args) == 2 {
+		x.escapeArgs(st, args)
 		// Once.Do(f): f runs at most once - explore both "f is called now" and "f was called before"
 		if cl, ok := args[1].(*FuncV); ok && cl.Fn != nil && cl.Fn.Blocks != nil {
 			x.note("intrinsic sync.Once.Do: both outcomes (closure runs / already ran) explored")
@@ -159,15 +166,23 @@ func (x *Exec) callValue(fr *Frame, st *State, c *ssa.CallCommon, fval Value, ar
 		return
 	}
 	if isLoggingKey(key) {
+		x.escapeArgs(st, args)
 		x.note("intrinsic logging call treated as effect-free: " + key)
 		ret(fr, st, x.freshResult(st, x.resultType(c), "log"))
 		return
 	}
 	if strings.HasPrefix(key, "math/big.") {
+		x.escapeArgs(st, args)
 		if v, ok := x.bigIntrinsic(fr, st, key, c, args); ok {
 			ret(fr, st, v)
 			return
 		}
+	}
+	if x.isPureCall(key) {
+		x.escapeArgs(st, args)
+		x.note("assumed-pure call (purecall): " + key)
+		ret(fr, st, x.freshResult(st, x.resultType(c), "pc."+fn.Name()))
+		return
 	}
 	con := x.CS.Funcs[key]
 	if con == nil && fn.Origin() != nil {
@@ -177,6 +192,10 @@ func (x *Exec) callValue(fr *Frame, st *State, c *ssa.CallCommon, fval Value, ar
 	if con != nil && !con.Inline && (fn != x.root || isRootRecursion) {
 		if fn == x.root && fr.depth == 0 {
 			// recursive call of the function under verification: use its own contract
+		}
+		x.escapeArgs(st, args)
+		if fv != nil {
+			x.escapeArgs(st, fv.Free)
 		}
 		x.applyContract(fr, st, fn, con, args, ret)
 		return
@@ -188,6 +207,10 @@ func (x *Exec) callValue(fr *Frame, st *State, c *ssa.CallCommon, fval Value, ar
 	if fn.Blocks != nil && (fv.Free != nil || fn.Parent() != nil) && fr.depth < x.cfg.MaxInline+2 && !x.onStack(fr, fn) {
 		x.inline(fr, st, fn, fv, args, ret, k)
 		return
+	}
+	x.escapeArgs(st, args)
+	if fv != nil {
+		x.escapeArgs(st, fv.Free)
 	}
 	x.note("uncontracted-call " + key)
 	x.havocCall(fr, st, c, args, key)
@@ -290,6 +313,8 @@ func (x *Exec) invoke(fr *Frame, st *State, c *ssa.CallCommon, recv *IfaceV, arg
 			}
 		}
 	}
+	x.escapeValue(st, recv)
+	x.escapeArgs(st, args)
 	if con := x.CS.Funcs[key]; con != nil {
 		// a (trusted) contract on an interface method, from /verif/specs
 		sig := c.Signature()
@@ -326,6 +351,7 @@ func (x *Exec) invoke(fr *Frame, st *State, c *ssa.CallCommon, recv *IfaceV, arg
 func (x *Exec) callStatic(fr *Frame, st *State, fn *ssa.Function, fv *FuncV, args []Value, rt types.Type, ret callK, k func(*pathEnd)) {
 	key := funcKey(fn)
 	if con := x.CS.Funcs[key]; con != nil && !con.Inline {
+		x.escapeArgs(st, args)
 		x.applyContract(fr, st, fn, con, args, ret)
 		return
 	}
@@ -333,6 +359,7 @@ func (x *Exec) callStatic(fr *Frame, st *State, fn *ssa.Function, fv *FuncV, arg
 		x.inline(fr, st, fn, fv, args, ret, k)
 		return
 	}
+	x.escapeArgs(st, args)
 	x.note("uncontracted-call " + key)
 	x.heapHavocAll(st)
 	ret(fr, st, x.freshResult(st, rt, "call."+fn.Name()))
@@ -963,4 +990,15 @@ func (x *Exec) addInput(m ModelVar) {
 	if len(x.inputs) < 400 {
 		x.inputs = append(x.inputs, m)
 	}
+}
+
+// isPureCall: the function is covered by a "purecall" assumption of /verif/specs.
+func (x *Exec) isPureCall(key string) bool {
+	short := key[strings.LastIndex(key, "/")+1:]
+	for _, sfx := range x.CS.PureCalls {
+		if strings.HasSuffix(short, sfx) && (len(short) == len(sfx) || short[len(short)-len(sfx)-1] == '.') {
+			return true
+		}
+	}
+	return false
 }
